@@ -60,8 +60,8 @@ def innTerm (n : V3 α) (at2 : α) (tc : Tri α) (s0 s1 : Nat) : α :=
 
 /-- `i_nm` for one simplex (the `-(…)/8` is applied to the total) -/
 def inmTerm (n : V3 α) (at2 : α) (tc : Tri α) (s0 s1 : Nat) : α :=
-  quad tc (fun p => sq (p.get s0) * p.get s1) * n.get s0 * at2 +
-  quad tc (fun p => p.get s0 * sq (p.get s1)) * n.get s1 * at2
+  quad tc (fun p => sqr (p.get s0) * p.get s1) * n.get s0 * at2 +
+  quad tc (fun p => p.get s0 * sqr (p.get s1)) * n.get s1 * at2
 
 /-- `_compute_inertia_tensor(centered=True)`. `S` are the uncentred surface triangles (their
     stored unit normals are `simplexNormal`), `c` the stored centroid. -/
